@@ -17,7 +17,7 @@ Ltac Zify.zify_post_hook ::= Z.div_mod_to_equations.
 
 (* PriorityQueue.Length *)
 Lemma gen_jb_Length_eq q : g_jitterbuffer_PriorityQueue_Length (PriorityQueue.qlen q) = PriorityQueue.pq_length q.
-Proof. reflexivity. Qed.
+Proof. first [ reflexivity | gnorm; tie_cases ]. Qed.
 
 (* JitterBuffer.updateStats is the (lastSequence, stats.outOfOrderCount) part of a Push step *)
 Lemma update_state_keeps (Q : Type) (O : JitterBuffer.pq_ops Q) (s : JitterBuffer.jb Q) :
@@ -36,15 +36,14 @@ Proof.
     match goal with |- context [JitterBuffer.update_state O ?s1] =>
       destruct (update_state_keeps Q O s1) as [K1 K2]; destruct (JitterBuffer.update_state O s1) as [s2 ev] end;
     cbn [fst snd] in *; rewrite K1, K2; cbn [JitterBuffer.jlast JitterBuffer.jooo];
-    unfold g_jitterbuffer_JitterBuffer_updateStats, g_jitterbuffer_PriorityQueue_Length, add16, u32;
-    repeat match goal with |- context [if ?c then _ else _] => destruct c end; reflexivity.
+    gnorm; unfold add16, u32; tie_cases.
 Qed.
 
 (* JitterBuffer.SetPlayoutHead / PlayoutHead (the mutex is not rendered) *)
 Lemma gen_jb_SetPlayoutHead_eq (Q : Type) (O : JitterBuffer.pq_ops Q) (s : JitterBuffer.jb Q) h :
   g_jitterbuffer_JitterBuffer_SetPlayoutHead h = JitterBuffer.jhead (fst (fst (JitterBuffer.jb_step O s (JitterBuffer.OSetHead h)))).
-Proof. reflexivity. Qed.
+Proof. first [ reflexivity | gnorm; tie_cases ]. Qed.
 
 Lemma gen_jb_PlayoutHead_eq (Q : Type) (O : JitterBuffer.pq_ops Q) (s : JitterBuffer.jb Q) :
   JitterBuffer.RHead (g_jitterbuffer_JitterBuffer_PlayoutHead (JitterBuffer.jhead s)) = snd (fst (JitterBuffer.jb_step O s JitterBuffer.OHead)).
-Proof. reflexivity. Qed.
+Proof. first [ reflexivity | gnorm; tie_cases ]. Qed.
